@@ -1,3 +1,205 @@
-import EpsicProofs.FieldArith
+import EpsicProofs.Lemmas.Linear
+import Mathlib.Analysis.SpecialFunctions.ExpDeriv
+import Mathlib.Analysis.SpecialFunctions.Log.Deriv
+import Mathlib.Analysis.SpecialFunctions.Sqrt
+import Mathlib.Analysis.SpecialFunctions.Trigonometric.Deriv
+import Mathlib.Analysis.SpecialFunctions.Trigonometric.DerivHyp
+import Mathlib.Analysis.SpecialFunctions.Trigonometric.InverseDeriv
+import Mathlib.Analysis.SpecialFunctions.Trigonometric.ArctanDeriv
+/-! # C11 — estimates propagate variances to first order exactly
+
+For every rule of `Estimate.h`: the value is the function of the operand value(s) and the variance
+is `Σ (∂f/∂xᵢ)² σᵢ²`, where the partial derivatives are Mathlib's (`HasDerivAt`), not re-derived
+here.  Statements are over `ℝ`, for every operand in the function's domain and every variance. -/
+set_option linter.unusedSectionVars false
+set_option linter.unusedVariables false
 namespace Epsic.C11
+open Epsic Real
+
+/-- the shape every unary rule is proved in: `f' ` is the derivative of the reference function at
+`x`, and the propagated variance is `f'² σ²` -/
+def FirstOrder (f : ℝ → ℝ) (x σ2 : ℝ) (r : Est ℝ) : Prop :=
+  r.val = f x ∧ ∃ f', HasDerivAt f f' x ∧ r.var = f' ^ 2 * σ2
+
+theorem exp_rule (x σ2 : ℝ) : FirstOrder Real.exp x σ2 (Est.expE ⟨x, σ2⟩ (Real.exp x)) :=
+  ⟨rfl, Real.exp x, Real.hasDerivAt_exp x, by show Real.exp x * Real.exp x * σ2 = Real.exp x ^ 2 * σ2; ring⟩
+theorem log_rule (x σ2 : ℝ) (hx : x ≠ 0) : FirstOrder Real.log x σ2 (Est.logE ⟨x, σ2⟩ (Real.log x)) :=
+  ⟨rfl, x⁻¹, Real.hasDerivAt_log hx, by show σ2 / (x * x) = x⁻¹ ^ 2 * σ2; field_simp⟩
+theorem sqrt_rule (x σ2 : ℝ) (hx : 0 < x) : FirstOrder Real.sqrt x σ2 (Est.sqrtE ⟨x, σ2⟩ (Real.sqrt x) |x|) := by
+  refine ⟨rfl, 1 / (2 * √x), Real.hasDerivAt_sqrt hx.ne', ?_⟩
+  have hs : √x ^ 2 = x := Real.sq_sqrt hx.le
+  have hsx : √x ≠ 0 := (Real.sqrt_pos.mpr hx).ne'
+  show (1/2 * (1/2)) * σ2 / |x| = (1 / (2 * √x)) ^ 2 * σ2
+  rw [abs_of_pos hx, div_pow, mul_pow, hs]
+  field_simp
+theorem sin_rule (x σ2 : ℝ) : FirstOrder Real.sin x σ2 (Est.sinE ⟨x, σ2⟩ (Real.sin x)) := by
+  refine ⟨rfl, Real.cos x, Real.hasDerivAt_sin x, ?_⟩
+  have h : 1 - Real.sin x * Real.sin x = Real.cos x ^ 2 := by rw [← Real.sin_sq_add_cos_sq x]; ring
+  show (1 - Real.sin x * Real.sin x) * σ2 = Real.cos x ^ 2 * σ2
+  rw [h]
+theorem cos_rule (x σ2 : ℝ) : FirstOrder Real.cos x σ2 (Est.cosE ⟨x, σ2⟩ (Real.cos x)) := by
+  refine ⟨rfl, -Real.sin x, Real.hasDerivAt_cos x, ?_⟩
+  have h : 1 - Real.cos x * Real.cos x = (-Real.sin x) ^ 2 := by rw [← Real.sin_sq_add_cos_sq x]; ring
+  show (1 - Real.cos x * Real.cos x) * σ2 = (-Real.sin x) ^ 2 * σ2
+  rw [h]
+theorem acos_rule (x σ2 : ℝ) (h1 : -1 < x) (h2 : x < 1) :
+    FirstOrder Real.arccos x σ2 (Est.acosE ⟨x, σ2⟩ (Real.arccos x) (Real.sqrt (1 - x*x))) := by
+  refine ⟨rfl, -(1 / √(1 - x ^ 2)), Real.hasDerivAt_arccos h1.ne' h2.ne, ?_⟩
+  have hpos : 0 < 1 - x ^ 2 := by nlinarith
+  have hs : √(1 - x ^ 2) ≠ 0 := (Real.sqrt_pos.mpr hpos).ne'
+  simp only [Est.acosE, one_eq]
+  have : x * x = x ^ 2 := by ring
+  rw [this]; field_simp
+theorem atan_rule (x σ2 : ℝ) : FirstOrder Real.arctan x σ2 (Est.atanE ⟨x, σ2⟩ (Real.arctan x)) := by
+  refine ⟨rfl, 1 / (1 + x ^ 2), Real.hasDerivAt_arctan x, ?_⟩
+  have hpos : (0 : ℝ) < 1 + x * x := by nlinarith [mul_self_nonneg x]
+  have hpos' : (0 : ℝ) < 1 + x ^ 2 := by nlinarith [sq_nonneg x]
+  have h1 := hpos.ne'; have h2 := hpos'.ne'
+  show (1 / (1 + x * x)) * (1 / (1 + x * x)) * σ2 = (1 / (1 + x ^ 2)) ^ 2 * σ2
+  field_simp
+theorem sinh_rule (x σ2 : ℝ) : FirstOrder Real.sinh x σ2 (Est.sinhE ⟨x, σ2⟩ (Real.sinh x)) := by
+  refine ⟨rfl, Real.cosh x, Real.hasDerivAt_sinh x, ?_⟩
+  have h : 1 + Real.sinh x * Real.sinh x = Real.cosh x ^ 2 := by rw [Real.cosh_sq x]; ring
+  show (1 + Real.sinh x * Real.sinh x) * σ2 = Real.cosh x ^ 2 * σ2
+  rw [h]
+theorem cosh_rule (x σ2 : ℝ) : FirstOrder Real.cosh x σ2 (Est.coshE ⟨x, σ2⟩ (Real.cosh x)) := by
+  refine ⟨rfl, Real.sinh x, Real.hasDerivAt_cosh x, ?_⟩
+  have h : Real.cosh x * Real.cosh x - 1 = Real.sinh x ^ 2 := by have := Real.cosh_sq x; nlinarith [this]
+  show (Real.cosh x * Real.cosh x - 1) * σ2 = Real.sinh x ^ 2 * σ2
+  rw [h]
+/-- `atanh x = ½ log((1+x)/(1−x))` on `(-1,1)` (Mathlib: `Real.artanh_eq_half_log`) -/
+noncomputable def atanhRef (x : ℝ) : ℝ := 1/2 * Real.log ((1 + x) / (1 - x))
+theorem atanh_rule (x σ2 : ℝ) (h1 : -1 < x) (h2 : x < 1) :
+    FirstOrder atanhRef x σ2 (Est.atanhE ⟨x, σ2⟩ (atanhRef x)) := by
+  have hm : (1 - x) ≠ 0 := by linarith
+  have hp : (1 + x) ≠ 0 := by linarith
+  have hq : (1 + x) / (1 - x) ≠ 0 := div_ne_zero hp hm
+  have hd : HasDerivAt (fun y : ℝ => (1 + y) / (1 - y)) ((1 * (1 - x) - (1 + x) * (-1)) / (1 - x) ^ 2) x := by
+    have hn : HasDerivAt (fun y : ℝ => 1 + y) 1 x := by simpa using (hasDerivAt_id x).const_add 1
+    have hden : HasDerivAt (fun y : ℝ => 1 - y) (-1) x := by simpa using (hasDerivAt_id x).const_sub 1
+    exact hn.div hden hm
+  have hl := (hd.log hq).const_mul (1/2 : ℝ)
+  have hx2 : (1 : ℝ) - x * x ≠ 0 := by nlinarith
+  have hval : (1 / 2 : ℝ) * ((1 * (1 - x) - (1 + x) * -1) / (1 - x) ^ 2 / ((1 + x) / (1 - x))) = 1 / (1 - x * x) := by
+    have e : (1 : ℝ) - x * x = (1 - x) * (1 + x) := by ring
+    rw [e]; field_simp; ring
+  rw [hval] at hl
+  refine ⟨rfl, _, hl, ?_⟩
+  show (1 / (1 - x * x)) * (1 / (1 - x * x)) * σ2 = (1 / (1 - x * x)) ^ 2 * σ2
+  ring
+theorem inverse_rule (x σ2 : ℝ) (hx : x ≠ 0) :
+    ∃ r, Est.inverse (⟨x, σ2⟩ : Est ℝ) = .ok r ∧ FirstOrder (fun y => y⁻¹) x σ2 r := by
+  refine ⟨_, by simp [Est.inverse, sdiv_ok hx, bind, Except.bind, pure, Except.pure]; rfl, ?_, -(x ^ 2)⁻¹, hasDerivAt_inv hx, ?_⟩
+  · simp
+  · simp; field_simp
+theorem inverse_undefined (σ2 : ℝ) : Est.inverse (⟨0, σ2⟩ : Est ℝ) = .error .div0 := by
+  simp [Est.inverse, sdiv_err, bind, Except.bind]
+theorem neg_rule (x σ2 : ℝ) : FirstOrder (fun y => -y) x σ2 (Est.neg ⟨x, σ2⟩) :=
+  ⟨rfl, -1, (hasDerivAt_id' x).neg, by simp [Est.neg]⟩
+/-- `copysign(u, v)`: `±u` with the sign of `v`; both branches have derivative `±1` -/
+theorem copysign_rule (x σ2 : ℝ) (sgn : ℝ) (hs : sgn = 1 ∨ sgn = -1) :
+    FirstOrder (fun y => sgn * y) x σ2 (Est.copysignE ⟨x, σ2⟩ (sgn * x)) := by
+  refine ⟨rfl, sgn, by simpa using (hasDerivAt_id' x).const_mul sgn, ?_⟩
+  rcases hs with rfl | rfl <;> simp [Est.copysignE]
+
+/-! ## binary operations: both partial derivatives -/
+def FirstOrder2 (f : ℝ → ℝ → ℝ) (a b σa σb : ℝ) (r : Est ℝ) : Prop :=
+  r.val = f a b ∧ ∃ fa fb, HasDerivAt (fun t => f t b) fa a ∧ HasDerivAt (fun t => f a t) fb b ∧
+    r.var = fa ^ 2 * σa + fb ^ 2 * σb
+
+theorem add_rule (a b σa σb : ℝ) : FirstOrder2 (· + ·) a b σa σb (Est.add ⟨a, σa⟩ ⟨b, σb⟩) :=
+  ⟨rfl, 1, 1, by simpa using (hasDerivAt_id a).add_const b, by simpa using (hasDerivAt_id b).const_add a, by simp [Est.add]⟩
+theorem sub_rule (a b σa σb : ℝ) : FirstOrder2 (· - ·) a b σa σb (Est.sub ⟨a, σa⟩ ⟨b, σb⟩) :=
+  ⟨rfl, 1, -1, by simpa using (hasDerivAt_id a).sub_const b, by simpa using (hasDerivAt_id b).const_sub a, by simp [Est.sub]⟩
+theorem mul_rule (a b σa σb : ℝ) : FirstOrder2 (· * ·) a b σa σb (Est.mul ⟨a, σa⟩ ⟨b, σb⟩) :=
+  ⟨rfl, b, a, by simpa using (hasDerivAt_id a).mul_const b, by simpa using (hasDerivAt_id b).const_mul a,
+    by simp [Est.mul]; ring⟩
+theorem div_rule (a b σa σb : ℝ) (hb : b ≠ 0) :
+    ∃ r, Est.div (⟨a, σa⟩ : Est ℝ) ⟨b, σb⟩ = .ok r ∧ FirstOrder2 (· / ·) a b σa σb r := by
+  refine ⟨_, by simp [Est.div, Est.inverse, sdiv_ok hb, bind, Except.bind, pure, Except.pure]; rfl, ?_, 1 / b, -a / b ^ 2, ?_, ?_, ?_⟩
+  · simp [Est.mul, div_eq_mul_inv]
+  · simpa using (hasDerivAt_id a).div_const b
+  · have := (hasDerivAt_inv hb).const_mul a
+    simpa [div_eq_mul_inv, neg_mul] using this
+  · simp [Est.mul]; field_simp; ring
+/-- `atan2(s,c)`: off the line `c = 0`, `atan2` is `arctan(s/c)` up to a locally constant multiple
+of π, so the partial derivatives are those of `arctan(s/c)` -/
+theorem atan2_rule (s c σs σc : ℝ) (hc : c ≠ 0) (v : ℝ) :
+    ∃ fs fc, HasDerivAt (fun t => Real.arctan (t / c)) fs s ∧ HasDerivAt (fun t => Real.arctan (s / t)) fc c ∧
+      (Est.atan2E ⟨s, σs⟩ ⟨c, σc⟩ v).var = fs ^ 2 * σs + fc ^ 2 * σc := by
+  have h1 : HasDerivAt (fun t : ℝ => t / c) (1 / c) s := by simpa using (hasDerivAt_id s).div_const c
+  have h2 : HasDerivAt (fun t : ℝ => s / t) (-s / c ^ 2) c := by
+    have := (hasDerivAt_inv hc).const_mul s
+    simpa [div_eq_mul_inv, neg_mul] using this
+  refine ⟨_, _, h1.arctan, h2.arctan, ?_⟩
+  have hc2 : 0 < c * c := mul_self_pos.mpr hc
+  have hsum : c * c + s * s ≠ 0 := by nlinarith [mul_self_nonneg s]
+  have hsum' : c ^ 2 + s ^ 2 ≠ 0 := by nlinarith [sq_nonneg s, sq_nonneg c]
+  have hden : (1 : ℝ) + (s / c) ^ 2 ≠ 0 := by positivity
+  show (c * c * σs + s * s * σc) / ((c * c + s * s) * (c * c + s * s))
+      = (1 / (1 + (s / c) ^ 2) * (1 / c)) ^ 2 * σs + (1 / (1 + (s / c) ^ 2) * (-s / c ^ 2)) ^ 2 * σc
+  field_simp
+
+/-! ## product of complex estimates: every component carries the four first-order terms -/
+theorem cmul_rule (ar ai br bi sar sai sbr sbi : ℝ) :
+    let p := Est.cmul (⟨ar, sar⟩ : Est ℝ) ⟨ai, sai⟩ ⟨br, sbr⟩ ⟨bi, sbi⟩
+    p.1.val = ar*br - ai*bi ∧ p.2.val = ar*bi + ai*br ∧
+    p.1.var = br^2*sar + ar^2*sbr + bi^2*sai + ai^2*sbi ∧
+    p.2.var = bi^2*sar + ar^2*sbi + br^2*sai + ai^2*sbr := by
+  simp [Est.cmul, Est.mul, Est.add, Est.sub]
+  constructor <;> ring
+
+/-! ## the noise-bias corrected Lorentz invariant -/
+/-- value: with measured `S + n`, the estimate decomposes into the true invariant, terms linear in
+the noise, and centred squares — all of which vanish in expectation for independent zero-mean
+noise with `E nᵢ² = σᵢ²` -/
+theorem invariant_value (S n σ : Fin 4 → ℝ) :
+    (Est.invariantNew (fun i => (⟨S i + n i, σ i⟩ : Est ℝ))).val
+      = (S 0 ^ 2 - S 1 ^ 2 - S 2 ^ 2 - S 3 ^ 2)
+        + 2 * (S 0 * n 0 - S 1 * n 1 - S 2 * n 2 - S 3 * n 3)
+        + ((n 0 ^ 2 - σ 0) - (n 1 ^ 2 - σ 1) - (n 2 ^ 2 - σ 2) - (n 3 ^ 2 - σ 3)) := by
+  simp [Est.invariantNew, Est.stokesInvariantRaw, Est.sub, Est.mul]; ring
+/-- an expectation over the noise: linear, normalised, zero mean, second moments `σᵢ²` -/
+structure NoiseE (σ : Fin 4 → ℝ) where
+  E : ((Fin 4 → ℝ) → ℝ) → ℝ
+  add : ∀ f g, E (fun n => f n + g n) = E f + E g
+  smul : ∀ (c : ℝ) f, E (fun n => c * f n) = c * E f
+  const : ∀ c : ℝ, E (fun _ => c) = c
+  mean : ∀ i, E (fun n => n i) = 0
+  second : ∀ i, E (fun n => n i ^ 2) = σ i
+/-- **unbiased**: the expectation of the corrected invariant of the noisy Stokes parameters is the
+invariant of the true ones -/
+theorem invariant_unbiased (S σ : Fin 4 → ℝ) (N : NoiseE σ) :
+    N.E (fun n => (Est.invariantNew (fun i => (⟨S i + n i, σ i⟩ : Est ℝ))).val)
+      = S 0 ^ 2 - S 1 ^ 2 - S 2 ^ 2 - S 3 ^ 2 := by
+  have key : (fun n : Fin 4 → ℝ => (Est.invariantNew (fun i => (⟨S i + n i, σ i⟩ : Est ℝ))).val)
+      = fun n => ((S 0 ^ 2 - S 1 ^ 2 - S 2 ^ 2 - S 3 ^ 2 - σ 0 + σ 1 + σ 2 + σ 3)
+        + ((2 * S 0) * n 0 + ((-2 * S 1) * n 1 + ((-2 * S 2) * n 2 + (-2 * S 3) * n 3))))
+        + (n 0 ^ 2 + ((-1) * n 1 ^ 2 + ((-1) * n 2 ^ 2 + (-1) * n 3 ^ 2))) := by
+    funext n; rw [invariant_value]; ring
+  rw [key]
+  simp only [N.add, N.smul, N.const, N.mean, N.second]
+  ring
+/-- first-order variance `Σ (∂inv/∂Sᵢ)² σᵢ² = Σ 4 Sᵢ² σᵢ²` -/
+theorem invariant_variance (S σ : Fin 4 → ℝ) :
+    (Est.invariantNew (fun i => (⟨S i, σ i⟩ : Est ℝ))).var
+      = (2 * S 0) ^ 2 * σ 0 + (-2 * S 1) ^ 2 * σ 1 + (-2 * S 2) ^ 2 * σ 2 + (-2 * S 3) ^ 2 * σ 3 := by
+  simp [Est.invariantNew, sumFin_four]; ring
+theorem invariant_partials (S : Fin 4 → ℝ) :
+    HasDerivAt (fun t => t ^ 2 - S 1 ^ 2 - S 2 ^ 2 - S 3 ^ 2) (2 * S 0) (S 0) ∧
+    HasDerivAt (fun t => S 0 ^ 2 - t ^ 2 - S 2 ^ 2 - S 3 ^ 2) (-2 * S 1) (S 1) := by
+  constructor
+  · have := ((hasDerivAt_pow 2 (S 0)).sub_const (S 1 ^ 2)).sub_const (S 2 ^ 2) |>.sub_const (S 3 ^ 2)
+    simpa using this
+  · have := (((hasDerivAt_pow 2 (S 1)).const_sub (S 0 ^ 2)).sub_const (S 2 ^ 2)).sub_const (S 3 ^ 2)
+    simpa using this
+/-- the form before the repair carried only the total-intensity term (why the repair was needed) -/
+theorem invariantOld_variance (S σ : Fin 4 → ℝ) :
+    (Est.invariantOld (fun i => (⟨S i, σ i⟩ : Est ℝ))).var = 4 * S 0 ^ 2 * σ 0 := by
+  simp [Est.invariantOld, Est.stokesInvariantRaw, Est.sub, Est.mul]; ring
+theorem current_is_repaired : currentInvariantRepaired = true := rfl
+
+/-! non-vacuity -/
+example : FirstOrder Real.exp 1 (1/10) (Est.expE ⟨1, 1/10⟩ (Real.exp 1)) := exp_rule 1 (1/10)
+
 end Epsic.C11
